@@ -110,8 +110,10 @@ Proof.
     destruct (list_N_dec (bmt_root H d (firstn h x) ++ bmt_root H d (skipn h x))
                          (bmt_root H d (firstn h y) ++ bmt_root H d (skipn h y))) as [Eq|Ne].
     + apply app_inv_len in Eq as (E1 & E2); [|now rewrite !root_length].
-      destruct (IH _ _ ltac:(rewrite !firstn_length; lia) E1) as [F|C]; [|now right].
-      destruct (IH _ _ ltac:(rewrite !skipn_length; lia) E2) as [S|C]; [|now right].
+      assert (L1 : length (firstn h x) = length (firstn h y)) by (rewrite !firstn_length; lia).
+      assert (L2 : length (skipn h x) = length (skipn h y)) by (rewrite !skipn_length; lia).
+      destruct (IH _ _ L1 E1) as [F|C]; [|now right].
+      destruct (IH _ _ L2 E2) as [S|C]; [|now right].
       left. rewrite <- (firstn_skipn h x), <- (firstn_skipn h y). now rewrite F, S.
     + right. eexists _, _. split; [exact Ne | exact E].
 Qed.
@@ -119,7 +121,7 @@ Qed.
 Lemma pad_inj n (a b : list N) : length a = length b -> length a <= n -> pad n a = pad n b -> a = b.
 Proof.
   intros Hl Hn E. unfold pad in E. rewrite !firstn_app in E.
-  rewrite !firstn_all2 in E by lia. apply app_inv_len in E; tauto.
+  rewrite (firstn_all2 a), (firstn_all2 b) in E by lia. apply app_inv_len in E; [now destruct E | exact Hl].
 Qed.
 
 (** two valid chunks of the same length with the same address are equal, or a collision is exhibited *)
@@ -133,7 +135,8 @@ Proof.
   set (r' := bmt_root H D (pad (SEC * 2 ^ D) (skipn 8 d'))) in *.
   destruct (list_N_dec (firstn 8 d ++ r) (firstn 8 d' ++ r')) as [Eq|Ne].
   - apply app_inv_len in Eq as (E1 & E2); [|rewrite !firstn_length; lia].
-    destruct (root_inj D _ _ ltac:(now rewrite !pad_length) E2) as [Ep|(u & v & Nuv & Euv)].
+    assert (Lp : length (pad (SEC * 2 ^ D) (skipn 8 d)) = length (pad (SEC * 2 ^ D) (skipn 8 d'))) by now rewrite !pad_length.
+    destruct (root_inj D _ _ Lp E2) as [Ep|(u & v & Nuv & Euv)].
     + left. apply pad_inj in Ep; [| rewrite !skipn_length; lia | rewrite skipn_length; unfold maxsize in *; lia].
       rewrite <- (firstn_skipn 8 d), <- (firstn_skipn 8 d'). now rewrite E1, Ep.
     + right. exists u, v. auto.
